@@ -32,12 +32,22 @@ trait Tagged: ArrayElement {
     fn same(a: &Self, b: &Self) -> bool { a == b }
 }
 impl Tagged for i64 { const NAME: &'static str = "i64"; fn of(t: i64) -> Self { t } }
-impl Tagged for u8 { const NAME: &'static str = "u8"; fn of(t: i64) -> Self { tag_u8(t) } }
+impl Tagged for u8 { const NAME: &'static str = "u8"; fn of(t: i64) -> Self { if zmode() { 7 } else { tag_u8(t) } } }
 impl Tagged for i8 { const NAME: &'static str = "i8"; fn of(t: i64) -> Self { tag_i8(t) } }
-impl Tagged for bool { const NAME: &'static str = "bool"; fn of(t: i64) -> Self { t % 2 != 0 } }
+impl Tagged for bool { const NAME: &'static str = "bool"; fn of(t: i64) -> Self { !zmode() && t % 2 != 0 } }
 impl Tagged for String { const NAME: &'static str = "String"; fn of(t: i64) -> Self { format!("s{t}") } }
-impl Tagged for f64 { const NAME: &'static str = "f64"; fn of(t: i64) -> Self { tag_f64z(t) } fn same(a: &Self, b: &Self) -> bool { a.to_bits() == b.to_bits() } }
-impl Tagged for f32 { const NAME: &'static str = "f32"; fn of(t: i64) -> Self { if t == 0 { -0.0 } else { t as f32 } } fn same(a: &Self, b: &Self) -> bool { a.to_bits() == b.to_bits() } }
+impl Tagged for f64 { const NAME: &'static str = "f64"; fn of(t: i64) -> Self { if zmode() { if t.rem_euclid(2) == 0 { 0.0 } else { -0.0 } } else { tag_f64z(t) } } fn same(a: &Self, b: &Self) -> bool { a.to_bits() == b.to_bits() } }
+impl Tagged for f32 { const NAME: &'static str = "f32"; fn of(t: i64) -> Self { if zmode() { if t.rem_euclid(3) == 0 { -0.0 } else { 0.0 } } else if t == 0 { -0.0 } else { t as f32 } } fn same(a: &Self, b: &Self) -> bool { a.to_bits() == b.to_bits() } }
+// odd layouts (FRAMEWORK part 3, class 12): 12 bytes, 3 bytes, 32 bytes and not `Copy`
+impl Tagged for T3 { const NAME: &'static str = "Tuple3<i32,i32,i32> (12 bytes)"; fn of(t: i64) -> Self { tag_t3(t) } }
+impl Tagged for T3b { const NAME: &'static str = "Tuple3<u8,u8,u8> (3 bytes)"; fn of(t: i64) -> Self { tag_t3b(t) } }
+impl Tagged for TW { const NAME: &'static str = "Tuple2<String,i32> (32 bytes)"; fn of(t: i64) -> Self { tag_tw(t) } }
+
+// `z call` lines (class 13, values related in a way random data never is): the f64 / f32 images hold ONLY zeros — all elements are
+// `==` to each other, the sign bit follows the tag (parity / residue modulo 3) — so `a == values` is true for arrays that are not
+// bit-identical; the u8 and bool images are constant.  The i64 tags keep every position distinguishable.
+thread_local! { static ZMODE: std::cell::Cell<bool> = const { std::cell::Cell::new(false) }; }
+fn zmode() -> bool { ZMODE.with(|z| z.get()) }
 
 fn arr_of<T: Tagged>(s: &str) -> Array<T> { let (sh, e) = parse_arr_raw(s); Array::new(e.into_iter().map(T::of).collect(), sh).expect("harness: array literal") }
 
@@ -80,20 +90,39 @@ macro_rules! at_type { ($T:ident, $ty:ty, $body:expr) => {{ #[allow(dead_code, n
 /// comparison of lib.rs `cross_type_arr`, i.e. what `on_types_arr!` does — and, when `$more`, on i8 / bool / String / f32 too
 macro_rules! sweep_arr { ($more:expr, |$T:ident| $body:expr) => {{
     let _ = take_note();
-    let mut obs = match (at_type!($T, i64, $body), at_type!($T, u8, $body), at_type!($T, f64, $body)) {
+    let mut obs = if zmode() {
+        // all-equal-but-not-identical images: every run is compared with the i64 run through `Tagged::of` (bit-wise for the floats)
+        match at_type!($T, i64, $body) {
+            Ok(ri) => {
+                let mut d = extra_arr::<f64>(&ri, at_type!($T, f64, $body));
+                if d.is_none() { d = extra_arr::<f32>(&ri, at_type!($T, f32, $body)); }
+                if d.is_none() { d = extra_arr::<u8>(&ri, at_type!($T, u8, $body)); }
+                if d.is_none() { d = extra_arr::<bool>(&ri, at_type!($T, bool, $body)); }
+                match d { None => res_arr(&ri), Some(d) => format!("VALUE-DIVERGENCE (all elements equal as numbers, signs of zero differ) {d}; i64 run: {}", truncate(&res_arr(&ri), 300)) }
+            }
+            Err(_) => "panic".to_string(),
+        }
+    } else { match (at_type!($T, i64, $body), at_type!($T, u8, $body), at_type!($T, f64, $body)) {
         (Ok(ri), Ok(ru), Ok(rf)) => {
             let mut d = cross_type_arr(&ri, &ru, &rf);
-            if d.is_none() && $more {
+            if d.is_none() && $more >= 2 {
                 d = extra_arr::<i8>(&ri, at_type!($T, i8, $body));
                 if d.is_none() { d = extra_arr::<bool>(&ri, at_type!($T, bool, $body)); }
                 if d.is_none() { d = extra_arr::<String>(&ri, at_type!($T, String, $body)); }
                 if d.is_none() { d = extra_arr::<f32>(&ri, at_type!($T, f32, $body)); }
             }
+            if d.is_none() && $more >= 1 {
+                d = extra_arr::<T3>(&ri, at_type!($T, T3, $body));
+                if d.is_none() { d = extra_arr::<T3b>(&ri, at_type!($T, T3b, $body)); }
+                if d.is_none() { d = extra_arr::<TW>(&ri, at_type!($T, TW, $body)); }
+                if d.is_some() { d = d.map(|d| format!("(LAYOUT) {d}")); }
+                LAYOUT_RUNS.fetch_add(1, Ordering::Relaxed);
+            }
             match d { None => res_arr(&ri), Some(d) => format!("TYPE-DIVERGENCE {d}; i64 run: {}", truncate(&res_arr(&ri), 300)) }
         }
         (Err(_), Err(_), Err(_)) => "panic".to_string(),
         (ri, ru, rf) => format!("TYPE-DIVERGENCE panic only for some element types (i64 {}, u8 {}, f64 {})", ri.is_err(), ru.is_err(), rf.is_err()),
-    };
+    } };
     if let Some(n) = take_note() { obs = format!("{n}; answer: {}", truncate(&obs, 300)); }
     obs
 }} }
@@ -138,20 +167,38 @@ fn extra_list<T: Tagged>(ri: &Result<Vec<Array<i64>>, ArrayError>, rt: std::thre
 /// `sweep_arr!` for bodies giving `Result<Vec<Array<$T>>, ArrayError>` (lib.rs `cross_type_list`, what `on_types_list!` does)
 macro_rules! sweep_list { ($more:expr, |$T:ident| $body:expr) => {{
     let _ = take_note();
-    let mut obs = match (at_type!($T, i64, $body), at_type!($T, u8, $body), at_type!($T, f64, $body)) {
+    let mut obs = if zmode() {
+        match at_type!($T, i64, $body) {
+            Ok(ri) => {
+                let mut d = extra_list::<f64>(&ri, at_type!($T, f64, $body));
+                if d.is_none() { d = extra_list::<f32>(&ri, at_type!($T, f32, $body)); }
+                if d.is_none() { d = extra_list::<u8>(&ri, at_type!($T, u8, $body)); }
+                if d.is_none() { d = extra_list::<bool>(&ri, at_type!($T, bool, $body)); }
+                match d { None => res_arr_list(&ri), Some(d) => format!("VALUE-DIVERGENCE (all elements equal as numbers, signs of zero differ) {d}; i64 run: {}", truncate(&res_arr_list(&ri), 300)) }
+            }
+            Err(_) => "panic".to_string(),
+        }
+    } else { match (at_type!($T, i64, $body), at_type!($T, u8, $body), at_type!($T, f64, $body)) {
         (Ok(ri), Ok(ru), Ok(rf)) => {
             let mut d = cross_type_list(&ri, &ru, &rf);
-            if d.is_none() && $more {
+            if d.is_none() && $more >= 2 {
                 d = extra_list::<i8>(&ri, at_type!($T, i8, $body));
                 if d.is_none() { d = extra_list::<bool>(&ri, at_type!($T, bool, $body)); }
                 if d.is_none() { d = extra_list::<String>(&ri, at_type!($T, String, $body)); }
                 if d.is_none() { d = extra_list::<f32>(&ri, at_type!($T, f32, $body)); }
             }
+            if d.is_none() && $more >= 1 {
+                d = extra_list::<T3>(&ri, at_type!($T, T3, $body));
+                if d.is_none() { d = extra_list::<T3b>(&ri, at_type!($T, T3b, $body)); }
+                if d.is_none() { d = extra_list::<TW>(&ri, at_type!($T, TW, $body)); }
+                if d.is_some() { d = d.map(|d| format!("(LAYOUT) {d}")); }
+                LAYOUT_RUNS.fetch_add(1, Ordering::Relaxed);
+            }
             match d { None => res_arr_list(&ri), Some(d) => format!("TYPE-DIVERGENCE {d}; i64 run: {}", truncate(&res_arr_list(&ri), 300)) }
         }
         (Err(_), Err(_), Err(_)) => "panic".to_string(),
         (ri, ru, rf) => format!("TYPE-DIVERGENCE panic only for some element types (i64 {}, u8 {}, f64 {})", ri.is_err(), ru.is_err(), rf.is_err()),
-    };
+    } };
     if let Some(n) = take_note() { obs = format!("{n}; answer: {}", truncate(&obs, 300)); }
     obs
 }} }
@@ -613,7 +660,134 @@ fn gen_part2(thorough: bool, rng: &mut Rng, out: &mut dyn FnMut(String)) {
         if nd >= 5 { let a = tag(&s); for ax in 0..nd { for p in 1..=(s[ax] + 1) { out(format!("array_split {a} {p} {ax}")); out(format!("split_concat {a} {p} {ax}")); } out(format!("split_axis {a} {ax}")); out(format!("append {a} {} {ax}", tag_off(&s, 1000))); }
             out(format!("hsplit {a} 1")); out(format!("vsplit {a} 2")); out(format!("dsplit {a} 2")); }
     }
+    // ---- robustness streams, part 3: giant sizes, all-equal-but-not-identical values, axis numbers near 2^64
+    gen_part3(thorough, out);
     out("oracle_report final".to_string());
+}
+
+// ---------------------------------------------------------------- robustness streams, part 3 (generator)
+
+/// a giant operand: `iota:SHAPE[+OFF]`
+fn io(s: &[usize], off: i64) -> String { if off == 0 { format!("iota:{}", show_list(s)) } else { format!("iota:{}+{off}", show_list(s)) } }
+
+fn gen_part3(thorough: bool, out: &mut dyn FnMut(String)) {
+    const M: usize = 1 << 20;
+    let off = 5_000_000i64;
+    // ---- 11. more than 2^20 elements (`g` lines: harness-native reference, i64 tags + u8 image + a third on the 12-byte tuple).
+    // The crate cuts both inputs of a join into axis-length pieces and copies the whole array for every piece: the joining axis
+    // must stay short here, so that the PIECES (all positions off the axis) are the giant thing — above 2^20 elements, exact
+    // multiples of 2^20 and of 64 and not — in rank 1-4 on the first, a middle and the last axis; plus joins with short pieces and a
+    // giant total.  (template, joining axis, quick tier?)
+    let joins: Vec<(Vec<usize>, usize, bool)> = vec![
+        (vec![M + 5], 0, true), (vec![M], 0, false), (vec![2 * M + 1], 0, false), (vec![M + 64], 0, false), (vec![3 * M / 2], 0, false),
+        (vec![1, M + 5], 0, true), (vec![2, M + 7], 0, false), (vec![1, 2 * M + 3], 0, false),
+        (vec![M + 7, 1], 1, true), (vec![M + 64, 2], 1, false), (vec![1031, 1033, 1], 2, false),
+        (vec![1025, 1, 1025], 1, true), (vec![3, 1, 400_001], 1, false), (vec![1024, 2, 1024], 1, false), (vec![1, 1031, 1033], 0, false),
+        (vec![33, 1, 31, 1033], 1, true), (vec![2, 2, 1, 262_147], 2, true), (vec![1, 16, 65, 1009], 0, false), (vec![64, 128, 129, 1], 3, false),
+        // short pieces, giant total
+        (vec![17, 65_537], 0, true), (vec![600, 2, 1000], 1, true), (vec![3, 400_001], 0, false), (vec![400_001, 3], 1, false), (vec![16, 65, 16, 64], 2, false), (vec![65, 129, 127], 0, false)];
+    for (q, (tpl, ax, quick)) in joins.iter().enumerate() {
+        let (nd, ax) = (tpl.len(), *ax);
+        let with = |len: usize, o: i64| { let mut t = tpl.clone(); t[ax] = len; io(&t, o) };
+        let a = io(tpl, 0);
+        if thorough || *quick {
+            // both orders: the giant pieces come from the first / the second input
+            if q % 2 == 0 || thorough { out(format!("g append {a} {} {ax}", with(1 + q % 2, off))); }
+            if q % 2 == 1 || thorough { out(format!("g append {} {a} {ax}", with(1 + q % 3, off))); }
+        }
+        if thorough {
+            out(format!("g concatenate {a};{};{} {ax}", with(1, off), with(tpl[ax], 2 * off)));
+            out(format!("g append_self {a} {ax}"));
+            if nd <= 3 && ax < nd { out(format!("g stack {a};{} {ax}", io(tpl, off))); }
+            let conv = match (nd, ax) { (1, 0) => Some("hstack"), (_, 0) => Some("vstack"), (_, 1) => Some("hstack"), (_, 2) => Some("dstack"), _ => None };
+            if let Some(op) = conv { out(format!("g {op} {a};{}", with(1, off))); }
+        }
+    }
+    // the flat joins, stacking vectors, exact multiples of the 2^20 mark next to each other, aliasing, the promotions
+    let v = io(&[M + 5], 0);
+    out(format!("g concatenate {};{};{} 0", io(&[M], 0), io(&[70], off), io(&[M + 1], 2 * off)));
+    out(format!("g vstack {v};{}", io(&[M + 5], off)));
+    out(format!("g append {v} {} none", io(&[2, 3], off)));
+    out(format!("g dstack {};{}", io(&[1024, 1025], 0), io(&[1024, 1025], off)));
+    out(format!("g append_self {v} 0"));
+    if thorough {
+        out(format!("g stack {v};{} 0", io(&[M + 5], off))); out(format!("g stack {};{} 1", io(&[M + 5, 1], 0), io(&[M + 5, 1], off)));
+        out(format!("g hstack {v};{};{}", io(&[M], off), io(&[3], 2 * off))); out(format!("g row_stack {};{}", io(&[1, M + 5], 0), io(&[2, M + 5], off)));
+        out(format!("g column_stack {};{}", io(&[M + 5], 0), io(&[M + 5, 1], off))); out(format!("g concatenate {v};{};{v} none", io(&[3, 3], off)));
+        out(format!("g append_self {v} none")); out(format!("g append_self {} 0", io(&[1, M + 5], 0))); out(format!("g dstack {v};{}", io(&[M + 5], off)));
+        out(format!("g vstack {};{}", io(&[2 * M + 1], 0), io(&[2 * M + 1], off)));
+        // refused at giant size, then accepted
+        out(format!("g append {v} {} 0", io(&[1, M + 5], off))); out(format!("g concatenate {};{} 0", io(&[1, M + 5], 0), io(&[1, M + 6], off))); out(format!("g append {v} {} 0", io(&[2], off)));
+    }
+    // splitting: every lib giant shape on every axis, uneven and exact, offsets beyond 2^20 (each piece is cut from a copy of the whole
+    // array: few parts), split_axis on the short axes, the conveniences, the round trip
+    let mut giants = giant_shapes();
+    giants.extend([vec![1024, 1024], vec![1, M + 5], vec![M + 7, 1], vec![33, 32, 31, 33], vec![2, 2, 2, 131_073]]);
+    let quick_splits: &[(&[usize], usize, usize)] = &[(&[M | 5], 0, 2), (&[2_097_153], 0, 4), (&[3, 400_001], 1, 2), (&[400_001, 3], 0, 4), (&[2, 131_073, 4], 1, 3), (&[65, 129, 127], 2, 2), (&[1, M + 5], 1, 3), (&[1031, 1033], 0, 5)];
+    for (q, s) in giants.iter().enumerate() {
+        let a = io(s, 0); let nd = s.len();
+        for ax in 0..nd {
+            let d = s[ax];
+            for &(qs, qax, qp) in quick_splits { if qs == &s[..] && qax == ax && !thorough { out(format!("g array_split {a} {qp} {ax}")); } }
+            if !thorough { continue; }
+            let mut ps = vec![2usize, uneven(d), 7, 1]; if d < 7 { ps.push(d); ps.push(d + 1); } ps.sort(); ps.dedup();
+            for p in ps { if (p + q + ax) % 2 == 0 || p == uneven(d) { out(format!("g array_split {a} {p} {ax}")); } }
+            for p in [2usize, 3, 4, 5, 7] { if d % p == 0 { out(format!("g split {a} {p} {ax}")); break; } }
+            if d <= 5 { out(format!("g split_axis {a} {ax}")); out(format!("g split_concat {a} {} {ax}", d.max(2))); }
+            else if nd == 1 { out(format!("g split_concat {a} {} {ax}", uneven(d))); }
+        }
+        if thorough { out(format!("g array_split {a} 2 none")); out(format!("g hsplit {a} 1")); if nd >= 2 && s[0] % 2 == 0 { out(format!("g vsplit {a} 2")); } if nd >= 3 { out(format!("g dsplit {a} {}", if s[2] % 2 == 0 { 2 } else { 1 })); } }
+    }
+    out(format!("g split {} 2 2", io(&[2, 131_073, 4], 0)));
+    out(format!("g split_concat {v} 2 0"));
+    out(format!("g split_axis {} 1", io(&[600, 2, 1000], 0)));
+    out(format!("g vsplit {} 2", io(&[2, 3, 174_763], 0)));
+    out(format!("g hsplit {} 3", io(&[M + 5], 0)));      // 1 048 581 = 3 * 349 527
+    out(format!("g split {v} 2 0"));                       // refused (odd length) at giant size …
+    out(format!("g array_split {v} 2 0"));                 // … then accepted
+    // ---- 11b. an axis beyond 2^24 positions (`g8` lines: the u8 image only): a length that went through f32 is exact up to 2^24
+    const F: usize = 1 << 24;
+    out(format!("g8 array_split {} 4 0", io(&[F + 3], 0)));
+    out(format!("g8 array_split {} 1 0", io(&[F + 1], 0)));
+    if thorough {
+        for (n, p) in [(F + 1, 2usize), (F + 1, 3), (F + 3, 2), (F + 3, 7), (F + 5, 6), (2 * F + 1, 2), (F + 2, 1), (3 * F / 2 + 1, 5)] { out(format!("g8 array_split {} {p} 0", io(&[n], 0))); }
+        out(format!("g8 split {} 2 0", io(&[F + 2], 0))); out(format!("g8 split {} 3 0", io(&[F + 2], 0))); out(format!("g8 hsplit {} 2", io(&[F + 6], 0)));
+        out(format!("g8 split_concat {} 4 0", io(&[F + 3], 0)));
+        out(format!("g8 array_split {} 4 1", io(&[1, F + 3], 0))); out(format!("g8 array_split {} 4 0", io(&[F + 3, 1], 0))); out(format!("g8 vsplit {} 1", io(&[F + 1, 1], 0)));
+        out(format!("g8 append {} {} 0", io(&[F + 1], 0), io(&[3], off))); out(format!("g8 append {} {} none", io(&[F + 1], 0), io(&[F + 2], off)));
+        out(format!("g8 concatenate {};{};{} 0", io(&[F / 2 + 1], 0), io(&[F / 2 + 1], off), io(&[5], 2 * off)));
+        out(format!("g8 vstack {};{}", io(&[F / 2 + 1], 0), io(&[F / 2 + 1], off))); out(format!("g8 append_self {} 0", io(&[F / 2 + 1], 0)));
+    }
+    // ---- 13. all elements equal as numbers but not bit-identical (`z` lines: the f64 / f32 images hold +0.0 / -0.0 only, the u8 and bool
+    // images are constant): `a == values` holds for different arrays, every piece of a split `==` every other
+    for s in [vec![3usize], vec![4], vec![2, 3], vec![3, 2], vec![2, 2, 2], vec![3, 1, 2], vec![1, 5], vec![8, 9], vec![2, 64]] {
+        let nd = s.len(); let a = tag(&s); let b = tag_off(&s, 1001); let n: usize = s.iter().product();
+        for ax in 0..nd {
+            out(format!("z append {a} {b} {ax}")); out(format!("z append {b} {a} {ax}")); out(format!("z append_self {a} {ax}"));
+            out(format!("z concatenate {a};{b};{a} {ax}")); out(format!("z stack {a};{b} {ax}")); out(format!("z stack {a};{a};{b} {ax}"));
+            for p in [2usize, 3, s[ax]] { if p >= 1 { out(format!("z array_split {a} {p} {ax}")); out(format!("z split_concat {a} {p} {ax}")); } }
+            out(format!("z split {a} {} {ax}", s[ax])); out(format!("z split_axis {a} {ax}"));
+            // equal as numbers AND in shape only after the join axis is ignored
+            let mut t = s.clone(); t[ax] += 1; out(format!("z append {a} {} {ax}", tag_off(&t, 1001))); out(format!("z concatenate {};{a};{b} {ax}", tag_off(&t, 1001)));
+        }
+        out(format!("z append {a} {b} none")); out(format!("z concatenate {a};{b} none")); out(format!("z append_self {a} none"));
+        for op in ["vstack", "hstack", "dstack", "column_stack", "row_stack"] { if op == "column_stack" && nd > 2 { continue; } out(format!("z {op} {a};{b}")); out(format!("z {op} {b};{a};{b}")); }
+        out(format!("z hsplit {a} 1")); if n % 2 == 0 { out(format!("z vsplit {a} {}", if s[0] % 2 == 0 { 2 } else { 1 })); }
+        // a constant source on the i64 tags as well: the same value everywhere, in both inputs
+        let c = format!("{}:{}", show_list(&s), show_list(&vec![7i64; n])); let c2 = { let mut t = s.clone(); t[nd - 1] += 1; format!("{}:{}", show_list(&t), show_list(&vec![7i64; t.iter().product()])) };
+        out(format!("append {c} {c} {}", nd - 1)); out(format!("append {c} {c2} {}", nd - 1)); out(format!("concatenate {c};{c};{c2} {}", nd - 1)); out(format!("stack {c};{c} 0")); out(format!("array_split {c2} 2 {}", nd - 1)); out(format!("split_concat {c2} 3 {}", nd - 1));
+    }
+    // ---- 15. the operations take no coordinates; their only numeric arguments are the axis and the part count.  Axis numbers at the
+    // top of the usize range (an `axis + 1`, a cast to isize or a wrapping product must not bring them back into the rank) are
+    // refused; an exact split into a part count near 2^63 / 2^64 is refused (the remainder test comes first)
+    for s in [vec![4usize], vec![2, 3], vec![3, 4, 2]] {
+        let a = tag(&s); let b = tag_off(&s, 1000);
+        for v in [u64::MAX, u64::MAX - 1, u64::MAX - 2, 1u64 << 63, (1u64 << 63) + 1, (1u64 << 63) - 1, u64::MAX / 3 + 1, u32::MAX as u64] {
+            out(format!("array_split {a} 2 {v}")); out(format!("split {a} 1 {v}")); out(format!("split_axis {a} {v}")); out(format!("append {a} {b} {v}")); out(format!("concatenate {a};{b} {v}")); out(format!("stack {a};{b} {v}"));
+            out(format!("split {a} {v} 0")); out(format!("hsplit {a} {v}"));
+        }
+        out(seq(&[format!("append {a} {b} {}", u64::MAX), format!("append {a} {b} 0"), format!("split {a} {} 0", 1u64 << 63), format!("split {a} 1 0")]));
+    }
 }
 
 // ---------------------------------------------------------------- harness-native reference (block placement by coordinates)
@@ -625,11 +799,19 @@ static ORACLE_ONLY: AtomicUsize = AtomicUsize::new(0);
 static ABA_RERUNS: AtomicUsize = AtomicUsize::new(0);
 static SEQ_CALLS: AtomicUsize = AtomicUsize::new(0);
 
-type Val = (Vec<usize>, Vec<i64>);
-enum Ans { Arr(Val), List(Vec<Val>) }
+static LAYOUT_RUNS: AtomicUsize = AtomicUsize::new(0);
+static GIANT_CALLS: AtomicUsize = AtomicUsize::new(0);
+static Z_CALLS: AtomicUsize = AtomicUsize::new(0);
+
+// the reference is generic in the element type: it only moves elements.  The ordinary and `n` lines use it at `i64` (where it is
+// compared with the model), the giant lines at i64 / u8 / the 12-byte tuple — the very same code.
+type ValT<T> = (Vec<usize>, Vec<T>);
+type Val = ValT<i64>;
+enum AnsT<T> { Arr(ValT<T>), List(Vec<ValT<T>>) }
+type Ans = AnsT<i64>;
 
 /// every input occupies, unchanged, the block of positions following the previous input along `ax`; `None` = refused
-fn concat_ref(items: &[Val], ax: usize) -> Option<Val> {
+fn concat_ref<T: Clone>(items: &[ValT<T>], ax: usize) -> Option<ValT<T>> {
     let first = &items.first()?.0; let nd = first.len();
     if ax >= nd { return None; }
     for (s, _) in items { if s.len() != nd || (0..nd).any(|k| k != ax && s[k] != first[k]) { return None; } }
@@ -640,14 +822,14 @@ fn concat_ref(items: &[Val], ax: usize) -> Option<Val> {
     Some((shape, out))
 }
 /// the same along a newly inserted axis
-fn stack_ref(items: &[Val], ax: usize) -> Option<Val> {
+fn stack_ref<T: Clone>(items: &[ValT<T>], ax: usize) -> Option<ValT<T>> {
     let first = &items.first()?.0;
     if ax > first.len() || items.iter().any(|(s, _)| s != first) { return None; }
-    let with_unit: Vec<Val> = items.iter().map(|(s, e)| { let mut t = s.clone(); t.insert(ax, 1); (t, e.clone()) }).collect();
+    let with_unit: Vec<ValT<T>> = items.iter().map(|(s, e)| { let mut t = s.clone(); t.insert(ax, 1); (t, e.clone()) }).collect();
     concat_ref(&with_unit, ax)
 }
 /// consecutive blocks along `ax` with the given lengths
-fn cut_ref(shape: &[usize], e: &[i64], ax: usize, sizes: &[usize]) -> Vec<Val> {
+fn cut_ref<T: Clone>(shape: &[usize], e: &[T], ax: usize, sizes: &[usize]) -> Vec<ValT<T>> {
     let outer: usize = shape[..ax].iter().product(); let inner: usize = shape[ax + 1..].iter().product(); let d = shape[ax];
     let mut from = 0; let mut out = vec![];
     for &len in sizes {
@@ -666,47 +848,52 @@ fn oracle(op: &str, args: &[&str]) -> Option<Option<Ans>> {
     let src = *args.first()?;
     if src == "-" { return None; }
     let items: Vec<Val> = src.split(';').map(parse_arr_raw).collect();
-    if items.iter().any(|(s, e)| e.is_empty() || s.is_empty() || s.iter().product::<usize>() != e.len()) { return None; }
+    let second = if op == "append" { Some(parse_arr_raw(args[1])) } else { None };
+    oracle_vals(op, &items, second, &args[if op == "append" { 2 } else { 1 }..])
+}
+/// `items`: the array list (or the one receiver), `second`: the `values` argument of append, `params`: the remaining arguments
+fn oracle_vals<T: Clone>(op: &str, items: &[ValT<T>], second: Option<ValT<T>>, params: &[&str]) -> Option<Option<AnsT<T>>> {
+    if items.is_empty() || items.iter().any(|(s, e)| e.is_empty() || s.is_empty() || s.iter().product::<usize>() != e.len()) { return None; }
     let ax_opt = |s: &str| -> Option<usize> { parse_opt(s) };
-    let arr = |v: Option<Val>| v.map(Ans::Arr);
+    let arr = |v: Option<ValT<T>>| v.map(AnsT::Arr);
     let same_rank = items.iter().all(|(s, _)| s.len() == items[0].0.len());
-    let (shape, e) = items[0].clone(); let nd = shape.len();
-    let split_ref = |parts: usize, ax: Option<usize>, exact: bool| -> Option<Option<Ans>> {
+    let (shape, e) = (&items[0].0, &items[0].1); let nd = shape.len();
+    let split_ref = |parts: usize, ax: Option<usize>, exact: bool| -> Option<Option<AnsT<T>>> {
         if parts == 0 { return Some(None); }
         let ax = match ax { Some(ax) if ax >= nd => return Some(None), Some(ax) => ax, None => 0 };
         if exact && shape[ax] % parts != 0 { return Some(None); }
-        Some(Some(Ans::List(cut_ref(&shape, &e, ax, &sections(shape[ax], parts)))))
+        Some(Some(AnsT::List(cut_ref(shape, e, ax, &sections(shape[ax], parts)))))
     };
     Some(match op {
-        "append" | "append_self" => { let v = if op == "append_self" { items[0].clone() } else { let v = parse_arr_raw(args[1]); if v.1.is_empty() || v.0.is_empty() { return None; } v };
-            match ax_opt(args[if op == "append_self" { 1 } else { 2 }]) {
-                None => { let mut out = e.clone(); out.extend_from_slice(&v.1); Some(Ans::Arr((vec![out.len()], out))) }
+        "append" | "append_self" => { let v = if op == "append_self" { items[0].clone() } else { let v = second?; if v.1.is_empty() || v.0.is_empty() { return None; } v };
+            match ax_opt(params[0]) {
+                None => { let mut out = e.clone(); out.extend_from_slice(&v.1); Some(AnsT::Arr((vec![out.len()], out))) }
                 Some(ax) => arr(concat_ref(&[items[0].clone(), v], ax)) } }
-        "concatenate" => match ax_opt(args[1]) {
-            None => { if items.len() < 2 { return None; } let out: Vec<i64> = items.iter().flat_map(|(_, e)| e.iter().copied()).collect(); Some(Ans::Arr((vec![out.len()], out))) }
-            Some(ax) => { if !same_rank { return None; } arr(concat_ref(&items, ax)) } },
-        "stack" => { let ax = ax_opt(args[1]).unwrap_or(0); if ax >= nd { return None; } arr(stack_ref(&items, ax)) }
+        "concatenate" => match ax_opt(params[0]) {
+            None => { if items.len() < 2 { return None; } let out: Vec<T> = items.iter().flat_map(|(_, e)| e.iter().cloned()).collect(); Some(AnsT::Arr((vec![out.len()], out))) }
+            Some(ax) => { if !same_rank { return None; } arr(concat_ref(items, ax)) } },
+        "stack" => { let ax = ax_opt(params[0]).unwrap_or(0); if ax >= nd { return None; } arr(stack_ref(items, ax)) }
         "vstack" | "row_stack" => { if !same_rank { return None; }
             // vectors of different lengths: the statement demands a refusal, the pinned code (and the model, which mirrors it) reshapes the
             // chained data to [count, len(first)] whenever the total happens to fit (fixes/C11-vstack-vectors-unequal-lengths.md): no opinion
-            if nd == 1 && items.iter().any(|(s, _)| s != &shape) { return None; }
-            if nd == 1 { arr(stack_ref(&items, 0)) } else { arr(concat_ref(&items, 0)) } }
-        "hstack" => { if !same_rank { return None; } arr(concat_ref(&items, if nd == 1 { 0 } else { 1 })) }
+            if nd == 1 && items.iter().any(|(s, _)| s != shape) { return None; }
+            if nd == 1 { arr(stack_ref(items, 0)) } else { arr(concat_ref(items, 0)) } }
+        "hstack" => { if !same_rank { return None; } arr(concat_ref(items, if nd == 1 { 0 } else { 1 })) }
         "dstack" => { if !same_rank { return None; }
-            let up: Vec<Val> = items.iter().map(|(s, e)| (match s.len() { 1 => vec![1, s[0], 1], 2 => vec![s[0], s[1], 1], _ => s.clone() }, e.clone())).collect();
+            let up: Vec<ValT<T>> = items.iter().map(|(s, e)| (match s.len() { 1 => vec![1, s[0], 1], 2 => vec![s[0], s[1], 1], _ => s.clone() }, e.clone())).collect();
             arr(concat_ref(&up, 2)) }
         "column_stack" => { if items.iter().any(|(s, _)| s.len() > 2) { return Some(None); }
-            let up: Vec<Val> = items.iter().map(|(s, e)| (if s.len() == 1 { vec![s[0], 1] } else { s.clone() }, e.clone())).collect();
+            let up: Vec<ValT<T>> = items.iter().map(|(s, e)| (if s.len() == 1 { vec![s[0], 1] } else { s.clone() }, e.clone())).collect();
             arr(concat_ref(&up, 1)) }
-        "array_split" => return split_ref(args[1].parse().ok()?, ax_opt(args[2]), false),
-        "split" => { let ax = ax_opt(args[2]); if let Some(ax) = ax { if ax >= nd { return Some(None); } } return split_ref(args[1].parse().ok()?, ax, true) }
-        "split_axis" => { let ax: usize = args[1].parse().ok()?; if ax >= nd { return Some(None); } if nd == 1 { Some(Ans::List(vec![(shape.clone(), e.clone())])) } else { return split_ref(shape[ax], Some(ax), true) } }
-        "hsplit" => return split_ref(args[1].parse().ok()?, Some(if nd == 1 { 0 } else { 1 }), true),
-        "vsplit" => { if nd < 2 { return Some(None); } return split_ref(args[1].parse().ok()?, Some(0), true) }
-        "dsplit" => { if nd < 3 { return Some(None); } return split_ref(args[1].parse().ok()?, Some(2), true) }
+        "array_split" => return split_ref(params[0].parse().ok()?, ax_opt(params[1]), false),
+        "split" => { let ax = ax_opt(params[1]); if let Some(ax) = ax { if ax >= nd { return Some(None); } } return split_ref(params[0].parse().ok()?, ax, true) }
+        "split_axis" => { let ax: usize = params[0].parse().ok()?; if ax >= nd { return Some(None); } if nd == 1 { Some(AnsT::List(vec![(shape.clone(), e.clone())])) } else { return split_ref(shape[ax], Some(ax), true) } }
+        "hsplit" => return split_ref(params[0].parse().ok()?, Some(if nd == 1 { 0 } else { 1 }), true),
+        "vsplit" => { if nd < 2 { return Some(None); } return split_ref(params[0].parse().ok()?, Some(0), true) }
+        "dsplit" => { if nd < 3 { return Some(None); } return split_ref(params[0].parse().ok()?, Some(2), true) }
         // splitting is the inverse of joining: the pieces, concatenated, are the original array
-        "split_concat" => { let (p, ax): (usize, usize) = (args[1].parse().ok()?, args[2].parse().ok()?);
-            match split_ref(p, Some(ax), false)? { None => None, Some(Ans::List(ps)) => arr(concat_ref(&ps, ax)), Some(a) => Some(a) } }
+        "split_concat" => { let (p, ax): (usize, usize) = (params[0].parse().ok()?, params[1].parse().ok()?);
+            match split_ref(p, Some(ax), false)? { None => None, Some(AnsT::List(ps)) => arr(concat_ref(&ps, ax)), Some(a) => Some(a) } }
         _ => return None,
     })
 }
@@ -740,7 +927,7 @@ fn shape_elems(a: &str) -> usize { let body = a.strip_prefix('i').unwrap_or(a); 
 fn elems_of(s: &str) -> usize { if s == "-" { 0 } else { s.split(';').map(shape_elems).sum() } }
 
 /// the real call: i64 / u8 / f64 (+ i8 / bool / String / f32 when `more`), both receivers where they exist, the i64 call twice
-fn run_call(op: &str, args: &[&str], more: bool) -> Option<String> {
+fn run_call(op: &str, args: &[&str], more: u8) -> Option<String> {
     let ax_opt = |s: &str| -> Option<usize> { parse_opt(s) };
     let src = *args.first()?;
     Some(match op {
@@ -794,7 +981,10 @@ fn plain_i64(op: &str, args: &[&str]) -> Option<String> {
 fn exec_call(op: &str, args: &[&str], expected: &str) -> Option<Verdict> {
     let src = *args.first()?;
     // the four further element types: at most 600 input elements, one case line in three
-    let more = { let n = elems_of(src) + if op == "append" { elems_of(args[1]) } else { 0 }; n <= 600 && args.iter().map(|a| a.len()).sum::<usize>() % 3 == 0 };
+    // and the three odd-layout element types (12 / 3 / 32 bytes) with them; between 600 and 6000 input elements the odd layouts alone,
+    // one case line in four (a tile of `64 / size_of::<T>()` elements only matters once a blocked path is entered)
+    let more: u8 = { let n = elems_of(src) + if op == "append" { elems_of(args[1]) } else { 0 }; let h = args.iter().map(|a| a.len()).sum::<usize>();
+        if n <= 600 { if h % 3 == 0 { 2 } else { 0 } } else if n <= 6000 && h % 4 == 0 { 1 } else { 0 } };
     let obs = run_call(op, args, more)?;
     match oracle(op, args) {
         None => { ORACLE_SILENT.fetch_add(1, Ordering::Relaxed); }
@@ -819,12 +1009,106 @@ fn exec_native(args: &[&str], expected: &str) -> Option<Verdict> {
     let (op, rest) = (*args.first()?, &args[1..]);
     let want = oracle_text(&oracle(op, rest)?);      // `n` lines are only generated where the reference has an opinion
     ORACLE_ONLY.fetch_add(1, Ordering::Relaxed);
-    LITE.with(|l| l.set(elems_of(rest[0]) > 5000));
-    let obs = run_call(op, rest, false);
+    let elems = elems_of(rest[0]);
+    LITE.with(|l| l.set(elems > 5000));
+    // the odd-layout element types on one reference-judged line in four up to 40 000 elements
+    let obs = run_call(op, rest, if elems <= 40000 && rest.iter().map(|a| a.len()).sum::<usize>() % 4 == 0 { 1 } else { 0 });
     LITE.with(|l| l.set(false));
     let obs = obs?;
     if obs == want || (class_of(&obs) == "err" && want == "err") { return Some(Verdict::Match(format!("ok native ({} bytes as the harness-native reference)", obs.len()))); }
     Some(Verdict::Mismatch { detail: format!("differs from the harness-native block-placement reference: {}; reference `{}`", diff_detail(&obs, &want), truncate(&want, 300)), observed: truncate(&obs, 1500) })
+}
+
+// ---------------------------------------------------------------- giant lines (FRAMEWORK part 3, class 11)
+
+/// `iota:SHAPE[+OFF]`: element k of the flat data carries the tag OFF + k; built here, never written out, never formatted
+fn giant_operand(s: &str) -> Option<(Vec<usize>, i64)> {
+    let body = s.strip_prefix("iota:")?;
+    Some(match body.split_once('+') { Some((sh, off)) => (parse_usize_list(sh), off.parse().ok()?), None => (parse_usize_list(body), 0) })
+}
+fn giant_val<T: Tagged>(o: &(Vec<usize>, i64)) -> ValT<T> { let n: usize = o.0.iter().product(); (o.0.clone(), (0..n as i64).map(|k| T::of(o.1 + k)).collect()) }
+fn to_array<T: Tagged>(v: &ValT<T>) -> Array<T> { Array::new(v.1.clone(), v.0.clone()).expect("harness: giant array") }
+
+enum Out<T: ArrayElement> { Arr(Array<T>), List(Vec<Array<T>>) }
+/// the real call; `chained`: through `Ok(array)` where an `impl … for Result<Array<T>, ArrayError>` exists
+fn giant_call<T: Tagged>(op: &str, mut l: Vec<Array<T>>, v: Option<Array<T>>, params: &[&str], chained: bool) -> Option<Result<Out<T>, ArrayError>> {
+    let ax_opt = |s: &str| -> Option<usize> { parse_opt(s) };
+    let ok = |a: Array<T>| -> Result<Array<T>, ArrayError> { Ok(a) };
+    let p0 = || -> Option<usize> { params.first()?.parse().ok() };
+    Some(match op {
+        "append" => { let (a, v, ax) = (l.remove(0), v?, ax_opt(params[0])); (if chained { ok(a).append(&v, ax) } else { a.append(&v, ax) }).map(Out::Arr) }
+        "append_self" => { let (a, ax) = (l.remove(0), ax_opt(params[0])); (if chained { ok(a.clone()).append(&a, ax) } else { a.append(&a, ax) }).map(Out::Arr) }
+        "concatenate" => Array::concatenate(l, ax_opt(params[0])).map(Out::Arr),
+        "stack" => Array::stack(l, ax_opt(params[0])).map(Out::Arr),
+        "vstack" => Array::vstack(l).map(Out::Arr),
+        "row_stack" => Array::row_stack(l).map(Out::Arr),
+        "hstack" => Array::hstack(l).map(Out::Arr),
+        "dstack" => Array::dstack(l).map(Out::Arr),
+        "column_stack" => Array::column_stack(l).map(Out::Arr),
+        "array_split" => { let (a, p, ax) = (l.remove(0), p0()?, ax_opt(params[1])); (if chained { ok(a).array_split(p, ax) } else { a.array_split(p, ax) }).map(Out::List) }
+        "split" => { let (a, p, ax) = (l.remove(0), p0()?, ax_opt(params[1])); (if chained { ArraySplit::split(&ok(a), p, ax) } else { ArraySplit::split(&a, p, ax) }).map(Out::List) }
+        "split_axis" => { let (a, ax) = (l.remove(0), p0()?); (if chained { ok(a).split_axis(ax) } else { a.split_axis(ax) }).map(Out::List) }
+        "hsplit" => { let (a, p) = (l.remove(0), p0()?); (if chained { ok(a).hsplit(p) } else { a.hsplit(p) }).map(Out::List) }
+        "vsplit" => { let (a, p) = (l.remove(0), p0()?); (if chained { ok(a).vsplit(p) } else { a.vsplit(p) }).map(Out::List) }
+        "dsplit" => { let (a, p) = (l.remove(0), p0()?); (if chained { ok(a).dsplit(p) } else { a.dsplit(p) }).map(Out::List) }
+        "split_concat" => { let (a, p, ax) = (l.remove(0), p0()?, params[1].parse::<usize>().ok()?);
+            (if chained { ok(a).array_split(p, Some(ax)) } else { a.array_split(p, Some(ax)) }).and_then(|ps| Array::concatenate(ps, Some(ax))).map(Out::Arr) }
+        _ => return None,
+    })
+}
+/// one array of a giant answer against the reference, in place; only the first differing position is reported
+fn giant_cmp<T: Tagged>(at: &str, got: Array<T>, want: &ValT<T>) -> Option<String> {
+    if !consistent(&got) { return Some(format!("{at}INCONSISTENT array (shape {:?}, {} elements)", got.get_shape().unwrap(), got.get_elements().unwrap().len())); }
+    let (gs, ge) = (got.get_shape().unwrap(), got.get_elements().unwrap());
+    drop(got);
+    if gs != want.0 || ge.len() != want.1.len() { return Some(format!("{at}shape {:?} with {} elements instead of shape {:?} with {}", gs, ge.len(), want.0, want.1.len())); }
+    let mut first: Option<usize> = None; let mut bad = 0usize;
+    for p in 0..ge.len() { if !T::same(&ge[p], &want.1[p]) { bad += 1; if first.is_none() { first = Some(p); } } }
+    first.map(|p| format!("{at}shape {:?}: {bad} of {} positions differ, the first at flat position {p}: {:?} instead of {:?}", gs, ge.len(), ge[p], want.1[p]))
+}
+/// the call on element type `T` (tags through `Tagged::of`) against the generic reference at the same type
+fn giant_run<T: Tagged>(op: &str, operands: &[(Vec<usize>, i64)], second: &Option<(Vec<usize>, i64)>, params: &[&str], chained: bool) -> Option<Result<String, String>> {
+    let label = format!("{}{}", T::NAME, if chained { ", Ok(array) receiver" } else { ", plain receiver" });
+    let items: Vec<ValT<T>> = operands.iter().map(giant_val::<T>).collect();
+    let sec: Option<ValT<T>> = second.as_ref().map(giant_val::<T>);
+    let arrays: Vec<Array<T>> = items.iter().map(to_array).collect();
+    let sec_arr = sec.as_ref().map(to_array);
+    let want = oracle_vals(op, &items, sec, params)?;       // giant lines are only generated where the reference has an opinion
+    drop(items);
+    let got = match std::panic::catch_unwind(std::panic::AssertUnwindSafe(|| giant_call(op, arrays, sec_arr, params, chained))) {
+        Ok(g) => g?,
+        Err(_) => return Some(Err(format!("{label}: the call panics"))),
+    };
+    Some(match (got, want) {
+        (Err(_), None) => Ok("err".into()),
+        (Err(e), Some(_)) => Err(format!("{label}: the call is refused ({}), the reference accepts it", err_name(&e))),
+        (Ok(_), None) => Err(format!("{label}: the call is accepted, the reference refuses it")),
+        (Ok(Out::Arr(a)), Some(AnsT::Arr(w))) => { let sh = a.get_shape().unwrap(); match giant_cmp("", a, &w) { None => Ok(format!("ok {}:…", show_list(&sh))), Some(d) => Err(format!("{label}: {d}")) } }
+        (Ok(Out::List(l)), Some(AnsT::List(w))) => {
+            if l.len() != w.len() { return Some(Err(format!("{label}: {} pieces instead of {}", l.len(), w.len()))); }
+            let shapes: Vec<String> = l.iter().map(|a| show_list(&a.get_shape().unwrap())).collect();
+            for (k, (a, wk)) in l.into_iter().zip(&w).enumerate() { if let Some(d) = giant_cmp(&format!("piece {k}: "), a, wk) { return Some(Err(format!("{label}: {d}"))); } }
+            Ok(format!("ok {}", shapes.iter().map(|s| format!("{s}:…")).collect::<Vec<_>>().join(";")))
+        }
+        _ => Err(format!("{label}: harness: the reference and the call give different kinds of answer")),
+    })
+}
+/// `g op operands params…` (`append`: two operand tokens): i64 tags on the plain receiver, the u8 image on `Ok(array)` (plain for the
+/// associated functions), a third of the lines also on the 12-byte tuple.  `g8`: the u8 image only (axes beyond 2^24 positions).
+fn exec_giant(only_u8: bool, args: &[&str], expected: &str) -> Option<Verdict> {
+    if expected != "ok native" { return Some(compare_default("harness: a giant line expects the driver to answer `ok native`".into(), expected)); }
+    let op = *args.first()?;
+    let operands: Vec<(Vec<usize>, i64)> = args.get(1)?.split(';').map(giant_operand).collect::<Option<Vec<_>>>()?;
+    let (second, params) = if op == "append" { (Some(giant_operand(args.get(2)?)?), &args[3..]) } else { (None, &args[2..]) };
+    ORACLE_ONLY.fetch_add(1, Ordering::Relaxed); GIANT_CALLS.fetch_add(1, Ordering::Relaxed);
+    let mut texts: Vec<String> = vec![];
+    let mut step = |r: Option<Result<String, String>>| -> Option<Option<Verdict>> {
+        match r { None => Some(None), Some(Err(d)) => Some(Some(Verdict::Mismatch { observed: texts.last().cloned().unwrap_or_else(|| "-".into()), detail: format!("differs from the harness-native block-placement reference (compared with the model on every ordinary case of this run): {d}") })), Some(Ok(t)) => { texts.push(t); None } }
+    };
+    if !only_u8 { if let Some(v) = step(giant_run::<i64>(op, &operands, &second, params, false)) { return v; } }
+    if let Some(v) = step(giant_run::<u8>(op, &operands, &second, params, !only_u8)) { return v; }
+    if !only_u8 && args.iter().map(|a| a.len()).sum::<usize>() % 3 == 0 { if let Some(v) = step(giant_run::<T3>(op, &operands, &second, params, false)) { return v; } }
+    Some(Verdict::Match(format!("ok native ({} runs: {})", texts.len(), texts[0])))
 }
 
 thread_local! { static PREV: RefCell<Option<(String, Vec<String>, String)>> = const { RefCell::new(None) }; }
@@ -840,8 +1124,8 @@ fn exec(op: &str, args: &[&str], expected: &str) -> Option<Verdict> {
 fn exec_line(op: &str, args: &[&str], expected: &str) -> Option<Verdict> {
     match op {
         "oracle_report" => {
-            let text = format!("ok report: so far the harness-native reference agreed with the full model answer on {} cases (no opinion on {}), {} calls judged by the reference only, {} calls inside seq lines, {} implicit A-B-A re-runs",
-                ORACLE_CHECKED.load(Ordering::Relaxed), ORACLE_SILENT.load(Ordering::Relaxed), ORACLE_ONLY.load(Ordering::Relaxed), SEQ_CALLS.load(Ordering::Relaxed), ABA_RERUNS.load(Ordering::Relaxed));
+            let text = format!("ok report: so far the harness-native reference agreed with the full model answer on {} cases (no opinion on {}), {} calls judged by the reference only ({} of them giant: more than 2^20 elements), {} calls inside seq lines, {} implicit A-B-A re-runs, {} cases also on the 12- / 3- / 32-byte element types, {} cases on all-equal-but-not-identical values",
+                ORACLE_CHECKED.load(Ordering::Relaxed), ORACLE_SILENT.load(Ordering::Relaxed), ORACLE_ONLY.load(Ordering::Relaxed), GIANT_CALLS.load(Ordering::Relaxed), SEQ_CALLS.load(Ordering::Relaxed), ABA_RERUNS.load(Ordering::Relaxed), LAYOUT_RUNS.load(Ordering::Relaxed), Z_CALLS.load(Ordering::Relaxed));
             if expected != "ok report" { return Some(compare_default(text, expected)); }
             if args.first() == Some(&"final") && ORACLE_ONLY.load(Ordering::Relaxed) > 0 && ORACLE_CHECKED.load(Ordering::Relaxed) < 1000 {
                 return Some(Verdict::Mismatch { observed: text, detail: "the native reference was relied upon without having been compared with the model on at least 1000 cases of this run".into() });
@@ -849,6 +1133,17 @@ fn exec_line(op: &str, args: &[&str], expected: &str) -> Option<Verdict> {
             Some(Verdict::Match(text))
         }
         "n" => exec_native(args, expected),
+        "g" | "g8" => exec_giant(op == "g8", args, expected),
+        // all-equal-but-not-identical values: the ordinary judgement first, then the same call on the zero-only / constant images
+        "z" => {
+            let v = exec_call(args.first()?, &args[1..], expected)?;
+            if !matches!(v, Verdict::Match(_)) { return Some(v); }
+            Z_CALLS.fetch_add(1, Ordering::Relaxed);
+            ZMODE.with(|z| z.set(true));
+            let obs = run_call(args[0], &args[1..], 0);
+            ZMODE.with(|z| z.set(false));
+            Some(compare_default(obs?, expected))
+        }
         "seq" => {
             let calls: Vec<&[&str]> = args.split(|t| *t == "/").collect();
             let exps: Vec<&str> = expected.split(" / ").collect();
@@ -888,7 +1183,8 @@ fn nontrivial(op: &str, args: &[&str]) -> bool {
     match op {
         "oracle_report" => false,
         "seq" => args.split(|t| *t == "/").any(|c| !c.is_empty() && nontrivial(c[0], &c[1..])),
-        "n" => args.len() >= 2 && nontrivial(args[0], &args[1..]),
+        "n" | "z" => args.len() >= 2 && nontrivial(args[0], &args[1..]),
+        "g" | "g8" => args.len() >= 3 && (args[1].contains(';') || args[0].starts_with("append") || (args[1].contains(',') && args[2] != "1")),
         "append_self" => true,
         "array_split" | "split" | "split_concat" => args[1] != "1" && args[1] != "0" && parse_arr_raw(args[0]).0.len() >= 2,
         "split_axis" | "hsplit" | "vsplit" | "dsplit" => parse_arr_raw(args[0]).0.len() >= 2,
